@@ -1160,3 +1160,79 @@ Proof.
     destruct In_ as (E & Ix). split; [now symmetry|]. split; [lia|]. intros Iad. apply Nad.
     unfold in_net. split; [congruence|lia].
 Qed.
+
+Lemma remove_all_spec : forall l d, SetInv d -> Forall wf_net l ->
+  exists d', remove_all d l = Ok d' /\ SetInv d' /\ forall ver x, den d' ver x <-> den d ver x /\ ~ den l ver x.
+Proof.
+  induction l as [|n l IH]; intros d I F; cbn [remove_all].
+  - exists d. split; [reflexivity|split; [exact I|]]. intros ver x. split; [|tauto].
+    intros H. split; [exact H|apply den_nil].
+  - inversion F as [|? ? Wn Fl]; subst.
+    destruct (remove_one_spec d n I Wn) as (d1 & E1 & I1 & D1). rewrite E1. cbn [bind].
+    destruct (IH d1 I1 Fl) as (d2 & E2 & I2 & D2). exists d2. split; [exact E2|split; [exact I2|]].
+    intros ver x. rewrite D2, D1, den_cons. tauto.
+Qed.
+
+Theorem remove_spec_proof : iprange_to_cidrs_spec -> cidr_merge_spec -> remove_spec_b.
+Proof.
+  intros IR _ d e I We. destruct e as [i|ver v|n|ver s e']; cbn [set_remove wf_elem in_elem] in *.
+  - destruct (net_of_int_spec i We) as (ver & E & Hv & Hr & Cases). rewrite E. cbn [bind].
+    destruct (addr_net_wfh ver i Hv Hr) as (Wa & Ia).
+    destruct (remove_one_spec d (addr_net ver i) I (proj1 Wa)) as (d' & E' & I' & D').
+    exists d'. split; [exact E'|split; [exact I'|]]. intros ver' x. rewrite D', Ia.
+    assert (Q: ver' = ver /\ x = i <-> x = i /\ (ver' = 4 /\ 0 <= i < 2 ^ 32 \/ ver' = 6 /\ 2 ^ 32 <= i < 2 ^ 128)).
+    { split.
+      - intros (-> & ->). split; [reflexivity|]. destruct Cases as [(-> & ?)|(-> & ?)]; [left|right]; (split; [reflexivity|assumption]).
+      - intros (-> & H). split; [|reflexivity].
+        destruct Cases as [(-> & ?)|(-> & ?)], H as [(-> & ?)|(-> & ?)]; try reflexivity; lia. }
+    rewrite Q. tauto.
+  - destruct We as (Hv & Hr). destruct (addr_net_wfh ver v Hv Hr) as (Wa & Ia).
+    destruct (remove_one_spec d (addr_net ver v) I (proj1 Wa)) as (d' & E' & I' & D').
+    exists d'. split; [exact E'|split; [exact I'|]]. intros ver' x. rewrite D', Ia. tauto.
+  - destruct (remove_one_spec d n I We) as (d' & E' & I' & D').
+    exists d'. split; [exact E'|split; [exact I'|exact D']].
+  - destruct We as (Hv & Hs & He).
+    assert (Hr1: 0 <= s < 2 ^ width ver) by lia. assert (Hr2: 0 <= e' < 2 ^ width ver) by lia.
+    destruct (addr_net_wfh ver s Hv Hr1) as (W1 & I1). destruct (addr_net_wfh ver e' Hv Hr2) as (W2 & I2).
+    destruct (wfh_view _ W1) as (_ & _ & PS1 & _ & _ & L1 & _). destruct (wfh_view _ W2) as (_ & _ & PS2 & _ & _ & L2 & _).
+    pose proof (proj1 (I1 _ _) (in_net_first _ W1)) as (_ & F1).
+    assert (F2: nl (addr_net ver e') = e').
+    { assert (X: in_net (addr_net ver e') ver (nl (addr_net ver e'))) by (unfold in_net; split; [reflexivity|lia]).
+      apply I2 in X. tauto. }
+    destruct (IR (addr_net ver s) (addr_net ver e')) as (cs & Ecs & Ccs & Dcs);
+      [apply W1|apply W2|reflexivity|rewrite F1, F2; lia|].
+    rewrite Ecs. cbn [bind]. pose proof Ccs as (Fcs & _).
+    destruct (remove_all_spec cs d I) as (d' & E' & I' & D').
+    { rewrite Forall_forall in *. intros x Hx. apply Fcs, Hx. }
+    exists d'. split; [exact E'|split; [exact I'|]]. intros ver' x. rewrite D', Dcs, F1, F2.
+    change (nver (addr_net ver s)) with ver. tauto.
+Qed.
+
+(* ================================================================ 8. pop() *)
+Theorem pop_spec d : SetInv d ->
+  (d = [] -> set_pop d = Raise KeyError) /\
+  (d <> [] -> exists d' k, set_pop d = Ok (d', k) /\ d = d' ++ [k] /\ In k d /\ SetInv d' /\
+     forall ver x, den d' ver x <-> den d ver x /\ ~ in_net k ver x).
+Proof.
+  intros I. split; [intros ->; reflexivity|]. intros Ne.
+  apply b_SetInv_iff in I. destruct I as ((F & N) & P & S).
+  unfold set_pop. destruct (rev d) as [|k r] eqn:Er.
+  { exfalso. apply Ne. rewrite <- (rev_involutive d), Er. reflexivity. }
+  assert (Ed: d = rev r ++ [k]) by (rewrite <- (rev_involutive d), Er; reflexivity).
+  exists (rev r), k. split; [reflexivity|]. subst d.
+  assert (Inc: forall x, In x (rev r) -> In x (rev r ++ [k])) by (intros x Hx; apply in_or_app; now left).
+  assert (Ik: In k (rev r ++ [k])) by (apply in_or_app; right; now left).
+  apply Forall_app in F. destruct F as (Fr & Fk).
+  assert (Nk: ~ In k (rev r)).
+  { apply NoDup_remove_2 in N. rewrite app_nil_r in N. exact N. }
+  assert (Nr: NoDup (rev r)).
+  { apply NoDup_remove_1 in N. rewrite app_nil_r in N. exact N. }
+  split; [reflexivity|]. split; [exact Ik|]. split.
+  - apply b_SetInv_iff. split; [split; assumption|split].
+    + intros x y Hx Hy. apply P; apply Inc; assumption.
+    + intros x y Hx Hy. apply S; apply Inc; assumption.
+  - intros ver x. unfold den. split.
+    + intros (n & Hn & In_). split; [exists n; split; [apply Inc, Hn|exact In_]|].
+      intros Ikx. apply (P n k (Inc n Hn) Ik); [intros ->; contradiction|]. exists ver, x. tauto.
+    + intros ((n & Hn & In_) & Nkx). apply in_app_or in Hn. destruct Hn as [Hn|[<-|[]]]; [exists n; tauto|contradiction].
+Qed.
